@@ -203,6 +203,17 @@ func discharge(o *Obligation, opt *solveOpts, idx int) {
 		}
 		racers = append(racers, solverCfg{"z3-new/lambda", solvers[0].args})
 	}
+	if hasQ {
+		// quantifier instantiation order depends on symbol names and the random seed: two more seeds make
+		// a proof that exists robust against renamings elsewhere in the tree
+		for _, sd := range []int{1, 7} {
+			sd := sd
+			racers = append(racers, solverCfg{fmt.Sprintf("z3-new/seed%d", sd), func(f string, t float64) []string {
+				return []string{"z3-new", fmt.Sprintf("-T:%d", int(t+0.999)), fmt.Sprintf("smt.random_seed=%d", sd), f}
+			}})
+		}
+	}
+	ch = make(chan res, len(racers))
 	for _, s := range racers {
 		s := s
 		f := file
